@@ -801,6 +801,38 @@ def run_constnet_overlap_case(sh, case):
   sh.count("one_net_two_slices:" + drv + (":overlap" if overlap else ":disjoint"))
 
 
+def run_ff_fullslice_case(sh, case):
+  """<<= on a part select inside update_ff is refused (python would assign a temporary copy of the bits) - also when the part
+  select happens to span the WHOLE register: s.cnt[0:W] with W the register's width, s.flag[0] on a 1-bit register.  If such a
+  design is accepted all the same, the register at least takes the values assigned to it"""
+  from pymtl3 import DefaultPassGroup
+  rng = sh.rng("fullslice", case)
+  W = rng.choice([1, 1, 4, 8, 33])
+  tgt = rng.choice(["whole", "full-slice", "full-slice", "partial"] if W > 1 else ["whole", "bit0", "bit0", "full-slice"])
+  lhs = {"whole": "s.r", "full-slice": f"s.r[0:{W}]", "bit0": "s.r[0]", "partial": f"s.r[0:{W - 1}]"}[tgt]
+  rhs = "s.in_" if tgt != "partial" else f"s.in_[0:{W - 1}]"
+  src = f"from pymtl3 import *\nclass FSTop(Component):\n  def construct(s):\n    s.in_ = InPort({W}); s.r = OutPort({W})\n    @update_ff\n    def ff():\n      {lhs} <<= {rhs}\n"
+  mod = G.load_source(src, "c09fs")
+  try:
+    try: top = mod.FSTop(); top.elaborate(); oc = None
+    except Exception as e: oc = type(e).__name__
+    sh.count("elaborations"); sh.count("ff_part_select_designs_judged"); sh.count("ff_target:" + tgt + (":accepted" if oc is None else ":refused"))
+    if tgt == "whole":
+      if oc is not None: sh.violation("defect-free-design-rejected", {"outcome": oc, "design_source": src}, case=("fullslice", case))
+      return
+    if oc is None:
+      # accepted: then it has to work
+      top.apply(DefaultPassGroup()); top.sim_reset(); bad = None
+      for _ in range(4):
+        v = rng.getrandbits(W) | 1; top.in_ @= v; top.sim_tick()
+        if int(top.r) != (v if tgt != "partial" else v & ((1 << (W - 1)) - 1)): bad = (v, int(top.r)); break
+      if bad is not None:
+        sh.violation("defective-design-elaborated-without-error", {"defect": "<<= on a part select in update_ff (the pending value lands in a temporary)", "target": lhs, "width": W,
+                     "expected": ["UpdateFFNonTopLevelSignalError"], "assigned_then_read_after_the_edge": list(bad), "design_source": src}, case=("fullslice", case))
+  finally:
+    G.unload(mod)
+
+
 def run_shard(sh):
   if sh.idx == 0: run_looprange_probe(sh)
   for case in range(6 if sh.tier == "quick" else 60):
@@ -808,6 +840,7 @@ def run_shard(sh):
     run_slicepair_case(sh, sh.idx * 1000 + case)
     run_loopback_case(sh, sh.idx * 1000 + case)
     run_constnet_overlap_case(sh, sh.idx * 1000 + case)
+    run_ff_fullslice_case(sh, sh.idx * 1000 + case)
   for case in range(12 if sh.tier == "quick" else 200):
     run_holey(sh, sh.idx * 1000 + case)
   for case in range(6 if sh.tier == "quick" else 60):
